@@ -177,6 +177,7 @@ def sparse_widths(total):
 def check_C02(chk):
     bins = vlib.build_harness(["dbg-native"])
     stage_bvref(chk, 9)
+    stage_mech_eliasfano(chk)
     stage_gen_bv(chk, bins, ["sparse"], 11 if chk.thorough else 10, FAMILY_THOROUGH if chk.thorough else FAMILY_QUICK)
     total = stage_trace(chk, bins, "sparse", "TraceBV", invariants=("ObjWellFormed",), seeds=2 if chk.thorough else 1)
     stage_bvref64(chk)
@@ -203,9 +204,31 @@ def stage_gen_rl(chk, bins, classes, maxruns, tails):
         chk.add_replay(out, "replay GenBV rl classes on dbg-native")
 
 
+def stage_mech_rle(chk):
+    """Layer B for the run-length vector: the builder as implemented refines the document-derived encoder; the sample index
+    and the narrowed binary search return the last block whose value is at most the query."""
+    calls = 4 if chk.thorough else 3
+    res = vlib.run_tlc(chk.work, "MC_RLE", "RLE", cfg_consts({"Classes": "{1, 8, 64, 134217728}", "MaxCalls": calls, "FixSetLen": "TRUE"}) + MC_TAIL + "INVARIANT Inv\n",
+                       workers=16, timeout=2400)
+    vlib.tlc_must_pass(res, "mech/RLE")
+    chk.add_tlc(res, "mech/RLE (Layer B): every history of <= %d try_set / set_len calls with gaps and lengths from {0,1,8,64,2^27}: counters exact, the finished "
+                     "file equals Format!EncRL of the accepted content (block closing, padding, samples, merging) and decodes to the maximal runs" % calls)
+    res2 = vlib.run_tlc(chk.work, "MC_RLE_mut", "RLE", cfg_consts({"Classes": "{1, 8}", "MaxCalls": 2, "FixSetLen": "FALSE"}) + MC_TAIL + "INVARIANT Inv\n", workers=4, timeout=600)
+    if not res2.violation:
+        raise ToolError("self-test failed: mech/RLE without the set_len repair (F9) does not violate its invariant")
+    chk.cov["stages"].append({"stage": "self-test: mech/RLE with set_len leaving the pending run at the old length (F9) violates the invariant", "ok": True})
+    for ratio, mv, mu in ((2, 6, 9),) + (((3, 7, 10),) if chk.thorough else ()):
+        res3 = vlib.run_tlc(chk.work, "MC_SampleIndex_%d" % ratio, "SampleIndex", cfg_consts({"Ratio": ratio, "MaxVals": mv, "MaxUniverse": mu}) + MC_TAIL + "INVARIANT Refines\n",
+                            workers=16, timeout=2400)
+        vlib.tlc_must_pass(res3, "mech/SampleIndex")
+        chk.add_tlc(res3, "mech/SampleIndex (Layer B): parameters / samples / range / block_for with ratio %d on every non-decreasing sequence of <= %d values below %d: "
+                          "the narrowed binary search returns the last block with value <= query" % (ratio, mv, mu))
+
+
 def check_C03(chk):
     bins = vlib.build_harness(["dbg-native"])
     stage_bvref(chk, 9)
+    stage_mech_rle(chk)
     stage_gen_bv(chk, bins, ["rl"], 11 if chk.thorough else 10, FAMILY_THOROUGH if chk.thorough else FAMILY_QUICK)
     if chk.thorough:
         stage_gen_rl(chk, bins, "{1, 2, 7, 8, 9, 63, 64, 65, 511, 512}", 2, "{0, 1, 64}")
@@ -232,8 +255,34 @@ def stage_gen_vec(chk, bins, kind, widths, depth, maxitems, simulate=None, label
         chk.add_replay(out, "replay %s on dbg-native" % name)
 
 
+def stage_mech_rawvec(chk):
+    depth, maxbits = (5, 13) if chk.thorough else (3, 12)
+    base = {"W": 4, "ByteBits": 2, "MaxBits": maxbits, "Depth": depth, "ZeroTail": "TRUE"}
+    res = vlib.run_tlc(chk.work, "MC_RawVec", "RawVec", cfg_consts(base) + MC_TAIL + "INVARIANT Inv\n", workers=16, timeout=3000)
+    vlib.tlc_must_pass(res, "mech/RawVec")
+    chk.add_tlc(res, "mech/RawVec (Layer B): (len, words) with 4-bit words, write_int/read_int of mech/Words, set_unused_bits where the code calls it; every history of "
+                     "depth %d over push/pop bit and int, set_bit, set_int, resize, complement, clear: Shape, TailZero, refinement of SDSVec!Step" % depth)
+    mut = dict(base)
+    mut["ZeroTail"] = "FALSE"
+    mut["Depth"] = 3
+    res2 = vlib.run_tlc(chk.work, "MC_RawVec_mut", "RawVec", cfg_consts(mut) + MC_TAIL + "INVARIANT Inv\n", workers=8, timeout=600)
+    if not res2.violation:
+        raise ToolError("self-test failed: mech/RawVec without re-zeroing the tail after pop_int does not violate TailZero")
+    chk.cov["stages"].append({"stage": "self-test: mech/RawVec without the tail re-zeroing after pop_int (the mutant the property names) violates TailZero", "ok": True})
+
+
+def stage_mech_eliasfano(chk):
+    consts = {"MaxN": 9 if chk.thorough else 7, "MaxM": 6 if chk.thorough else 5, "Widths": "{1, 2, 3}", "Thr": 2}
+    res = vlib.run_tlc(chk.work, "MC_EliasFano", "EliasFano", cfg_consts(consts) + MC_TAIL + "INVARIANT Refines\n", workers=16, timeout=3000)
+    vlib.tlc_must_pass(res, "mech/EliasFano")
+    chk.add_tlc(res, "mech/EliasFano (Layer B): high/low parts, bucket scans of rank / get / predecessor / successor, select, select_zero through find_zero_run "
+                     "(binary search threshold 2): every universe <= %d, every non-decreasing value list of <= %d values (sets and multisets, overfull included), "
+                     "every low width 1..3, every argument = Layer A" % (consts["MaxN"], consts["MaxM"]))
+
+
 def check_C05(chk):
     bins = vlib.build_harness(["dbg-native"])
+    stage_mech_rawvec(chk)
     if chk.thorough:
         stage_gen_vec(chk, bins, "int", "{1, 7, 31, 32, 33, 63, 64}", 2, 4)
         stage_gen_vec(chk, bins, "int", "{7, 33, 64}", 3, 3, label="d3")
@@ -439,6 +488,7 @@ def check_C16(chk):
 
 def check_C15(chk):
     bins = vlib.build_harness(["dbg-native"])
+    stage_mech_eliasfano(chk)
     maxu, maxv = (6, 6) if chk.thorough else (5, 5)
     path, res = vlib.generate_cases(chk.work, "GenMS_run", "GenMS", cfg_consts({"MaxU": maxu, "MaxVals": maxv}) + GEN_TAIL, timeout=1500)
     chk.add_tlc(res, "GenMS: all universes <= %d x all value sequences of <= %d values (non-decreasing ones answered, others must be refused)" % (maxu, maxv),
@@ -568,6 +618,11 @@ def stage_gen_writer(chk, bins, kind, widths, bufs, depth, maxpush, label):
 def check_C12(chk):
     bins = vlib.build_harness(["dbg-native"])
     chk.scratch_tmpdir()
+    depth = 7 if chk.thorough else 5
+    res = vlib.run_tlc(chk.work, "MC_Writer", "Writer", cfg_consts({"W": 4, "Requested": "{0, 1, 3, 4, 5, 8, 9}", "Depth": depth}) + MC_TAIL + "INVARIANT Inv\n", workers=16, timeout=3000)
+    vlib.tlc_must_pass(res, "mech/Writer")
+    chk.add_tlc(res, "mech/Writer (Layer B): buffer, safe flush with carried overflow, final flush, header, idempotent close with 4-bit words, requested buffer sizes "
+                     "{0,1,3,4,5,8,9}, every history of %d pushes of 0..4 bits: Conservation, WholeWords, SmallCarry, ClosedFile" % depth)
     if chk.thorough:
         stage_gen_writer(chk, bins, "raw", "{}", "{0, 1, 63, 64, 65, 100, 128}", 3, 0, "raw3")
         stage_gen_writer(chk, bins, "int", "{1, 7, 31, 32, 33, 63, 64}", "{0, 1, 2, 3, 9, 10, 63, 64, 65}", 0, 140, "int")
